@@ -8,7 +8,9 @@ An error is a comma-separated chain of wrappers ending in a leaf (every wrapper 
   `eof` · `nc` net.ErrClosed · `oc` os.ErrClosed · `dl` os.ErrDeadlineExceeded · `X:<hex txt>` errors.New ·
   `N:<hex txt>:<0|1>` another net.Error with that Timeout() ·
   `XA:<hex pre>:<addr>:<hex post>` an opaque error whose text names an address (an operation error flattened with %v) ·
-  `NA:<hex pre>:<addr>:<hex post>:<0|1>` a foreign net.Error whose text names an address (*net.AddrError)
+  `NA:<hex pre>:<addr>:<hex post>:<0|1>` a foreign net.Error whose text names an address (*net.AddrError) ·
+  `F:<hex pre>:<hex post>` (a wrapper) the cause flattened into the text of a new error, `fmt.Errorf(pre + "%v" + post, cause)`:
+  an opaque value whose text contains the cause's text
 
 `gen|<app>|<err>`   → `nil` or hex of the text of generalizeErr(err)
 `text|<err>`        → `<hex text>|is:<netClosed,eof,epipe,osClosed,reset,refused,aborted,unreach bits>|nt:<net.Error && Timeout()>`
@@ -54,6 +56,9 @@ def parseWrapper (s : String) : Option (Err → Err) :=
     let op ← parseStr op; let net ← parseStr net; let src ← parseAddr src; let dst ← parseAddr dst
     some (.opError op net src dst)
   | ["W", t] => do let t ← parseStr t; some (.wrapped [.str (t ++ ": ")])
+  | ["F", pre, post] => do
+    let pre ← parseStr pre; let post ← parseStr post
+    some (fun inner => .other ([.str pre] ++ inner.text ++ [.str post]))
   | _ => none
 
 def parseChain : List String → Option Err
